@@ -553,6 +553,12 @@ pub(crate) fn parse_const(c: &ItemConst) -> Result<RustItem, ParseError> {
 }
 
 fn parse_const_expr(e: &Expr) -> Result<RustConstExpr, ParseError> {
+    // Only a plain literal can be shared. Any other expression (negation, arithmetic, a call,
+    // a path) used to be reduced to the first literal found somewhere inside it.
+    if !matches!(e, Expr::Lit(_)) {
+        return Err(ParseError::RustConstExprInvalid);
+    }
+
     struct ExprLitVisitor(pub Option<Result<RustConstExpr, ParseError>>);
     impl Visit<'_> for ExprLitVisitor {
         fn visit_expr_lit(&mut self, el: &ExprLit) {
